@@ -185,7 +185,26 @@ BatteryGen(p) ==
                 /\ p = Mk0(PlaceAll(EmptyBoard, men), "w", {})
 BatteryOK(p) == ValidPosition(p)
 
+(* ---- discover: a white queen behind a white knight, bishop or rook on a line with the black king (a battery), and
+   a second white queen pinning a black piece to that king along another line; then every move that gives a DOUBLE
+   check is played: the positions in which two checkers and a pin must be recorded at once by the incremental
+   bookkeeping.  White to move. *)
+DiscoverGen(p) ==
+    LET bk == IF PromoFile % 2 = 0 THEN 60 ELSE 35
+    IN \E d1 \in 1..8, d2 \in 1..8 :
+       /\ d1 # d2
+       /\ \E i \in 1..Len(Ray[bk][d1]), i2 \in 1..Len(Ray[bk][d2]) :
+          \E j \in (i + 1)..Len(Ray[bk][d1]), j2 \in (i2 + 1)..Len(Ray[bk][d2]) :
+            /\ InSlice(d1 * 131 + d2 * 17 + i * 7 + j * 5 + i2 * 3 + j2)
+            /\ \E x \in {"N", "B", "R"}, y \in {"n", "b", "r", "p"}, wk \in {0, 7, 56} :
+                 LET men == << <<"k", bk>>, <<x, Ray[bk][d1][i]>>, <<"Q", Ray[bk][d1][j]>>,
+                               <<y, Ray[bk][d2][i2]>>, <<"Q", Ray[bk][d2][j2]>>, <<"K", wk>> >>
+                 IN /\ Distinct([q \in 1..Len(men) |-> men[q][2]])
+                    /\ p = Mk0(PlaceAll(EmptyBoard, men), "w", {})
+DiscoverOK(p) == ValidPosition(p) /\ \A z \in Sq : p.b[z] = "p" => RankOf(z) \in 1..6
+
 Gen(p) == CASE Family = "ep" -> EpGen(p) /\ EpRootOK(p)
+            [] Family = "discover" -> DiscoverGen(p) /\ DiscoverOK(p)
             [] Family = "battery" -> BatteryGen(p) /\ BatteryOK(p)
             [] Family = "promomate" -> PromoMateGen(p) /\ PromoMateOK(p)
             [] Family = "evade" -> EvadeGen(p) /\ EvadeOK(p)
@@ -205,6 +224,7 @@ Follow(m) ==
       [] Family = "castle" -> path = <<>> /\ KindOf(pos.b[m.from]) \in {"K", "R"}
       [] Family = "promo" -> path = <<>> /\ KindOf(pos.b[m.from]) = "P"
       [] Family = "evade" -> FALSE
+      [] Family = "discover" -> path = <<>> /\ (LET n == Apply(pos, m) IN Cardinality(Checkers(n)) >= 2)
       [] OTHER -> FALSE
 Next == \E m \in Legal(pos) : Follow(m) /\ pos' = Apply(pos, m) /\ path' = Append(path, Code(m)) /\ UNCHANGED <<rootpos, gen>>
 Spec == Init /\ [][Next]_vars
